@@ -69,6 +69,15 @@ Theorem c08_period_refines_windows : forall t0 ops, Forall pos_windows ops ->
 Proof. intros. apply refines_windows; [intro k; exact I|assumption]. Qed.
 Print Assumptions c08_period_refines_windows.
 
+(* The window and its expiry follow the SERVER clock only (EXPIRE is relative): a server whose clock
+   is ahead of or behind any other clock -- in particular the caller's -- by an arbitrary constant d
+   gives every history the same answers; so inside each window Allowed^(q-1).HitQuota.OverQuota* and a
+   fresh count exactly after the window's seconds of server time, whatever the skew. *)
+Theorem c08_period_server_clock_only : forall d t (s : store) ops,
+  prun (t + d, shift_store d s) ops = prun (t, s) ops.
+Proof. intros. apply prun_shift. Qed.
+Print Assumptions c08_period_server_clock_only.
+
 (* A replaced server (restart without persistence, fail-over, new container) is a fresh Redis: the
    limiter keeps working and the history continues as from an empty store at the current clock
    (so all theorems above apply again from there; the windows of the lost server are gone). *)
@@ -123,9 +132,12 @@ Print Assumptions c08_token_bound.
 (* ---------------------------------------------------------------- fallback *)
 
 (* (1) while redisAlive = 0 every decision is the rescue bucket's and Redis is not touched;
-   (2) a Redis error (no answer, or an error reply of the script) hands that very decision to the
+   (2) a Redis error (connection refused, a server that accepts the call and never answers within the client's
+       timeouts, or an error reply of the script) hands that very decision to the
        rescue bucket and leaves a monitor running (switching to the rescue path when none ran);
-   (3) a done context is a plain refusal that changes nothing;
+   (3) a done context (cancelled or expired before the call, or a deadline expiring while the script call
+       is in flight) is a refusal that leaves the limiter untouched -- no monitor, nothing from the rescue
+       bucket -- and Redis untouched too, unless the in-flight script still ran on the server;
    (4) a healthy call is decided by the script; in particular Redis' "no" (redis.Nil) does not switch;
    (5) along every event history from a fresh limiter: redisAlive = 0 iff the monitor is in its ping loop;
    (6) during an outage segment (no ping answered) all decisions are those of the rescue bucket run
@@ -146,7 +158,9 @@ Theorem c08_fallback :
        (w, mkL (alive l1) (monitor l1) (fst (rescue_allow (c_rate c) (c_burst c) now n (rescue l))),
         snd (rescue_allow (c_rate c) (c_burst c) now n (rescue l))) /\
      monitor l1 <> MIdle /\ (monitor l = MIdle -> alive l1 = false)) /\
-  (forall c w l now n cx, alive l = true -> cx <> CtxOk -> reserve c w l now n cx = (w, l, false)) /\
+  (forall c w l now n cx, alive l = true -> cx <> CtxOk ->
+     snd (reserve c w l now n cx) = false /\ snd (fst (reserve c w l now n cx)) = l /\
+     (cx <> CtxInFlight true -> fst (fst (reserve c w l now n cx)) = w)) /\
   (forall c w l now n s' ok, alive l = true -> eval_up w = true -> script_of c w now n = Some (s', ok) ->
      reserve c w l now n CtxOk = (mkW (clock w) s' (eval_up w) (ping_up w), l, ok)) /\
   (forall c w evs, linv (snd (fst (trun c (w, mkL true MIdle None) evs)))) /\
